@@ -45,6 +45,17 @@ def run(ctx, replay):
     else:
         tr = run_kv(ctx, ["--histories", 16, "--ops", 24, "--images", 6, "--double", 6], "a")
 
+    # a committed flush must also survive the background jobs that run beside it (compaction, obsolete-file cleanup):
+    # the gated concurrent histories of the C02 driver, judged by the same specification
+    trc = os.path.join(ctx.scratch, "kvc.ndjson")
+    scrc = os.path.join(ctx.scratch, "scr-kvc")
+    os.makedirs(scrc, exist_ok=True)
+    summ, rc, _ = ctx.run_vdrive(["kvc", "--seed", ctx.seed, "--histories", 200 if thorough else 25, "--out", trc, "--scratch", scrc], timeout=3000)
+    for u in summ["unresolved"]:
+        raise vcore.Unresolved("kvc driver: %s" % u)
+    ctx.extra["concurrent_schedules"] = summ["extra"]["schedules"]
+    vcore.validate_all(ctx, "KVStoreTrace", "KVStoreTrace.cfg", trc, describe=describe, dfs=False)
+
     def drop_close(lines):
         # a table referenced by a commit that was never closed
         for i, ln in enumerate(lines):
@@ -70,6 +81,6 @@ def run(ctx, replay):
     vcore.corrupt_selftest(ctx, "KVStoreTrace", "KVStoreTrace.cfg", tr, wrong_recovered, "a recovered version lacks a committed file")
     ctx.assumptions += [
         "process death = every completed file-system operation survives, user-space buffers are lost (no power loss, no torn write inside one write())",
-        "one writer (flush / compaction) at a time per store in these histories; concurrency is C02",
+        "crash images are taken in the sequential histories (one writer at a time); the concurrent histories (flush beside compaction and cleanup, gated) are judged without crash points; snapshot stability under concurrency is C02",
         "manifest records are smaller than the 256KB write buffer, so a record is appended entirely or not at all by Write+Sync",
     ]
